@@ -1,7 +1,7 @@
 SPECIFICATION Spec
 CONSTANTS
   MaxN = 3
-  Bursts = {1, 3}
+  Bursts = {1, 2, 3}
   Protos = {"T2", "T4"}
   NRetries = {1}
   Buggy = FALSE
